@@ -1573,6 +1573,10 @@ class TaskScenario(ScenarioData):
         # Initialize resource scoreboard if needed
         if res_scenario.scoreboard is None:
             res_scenario.prepareScheduling()
+        if res_scenario.scoreboard is None:
+            # A resource group has no slot table of its own: nothing can be booked on it,
+            # and nothing may be marked as used in its ledgers either.
+            return 0.0
 
         # For the FIRST slot of this task, apply start offset from dependency
         # This marks the portion already used by predecessor as unavailable
